@@ -21,6 +21,11 @@ TokEndsQuick == {0, 1, 3, 4}
 TokStartsThorough == {-2, -1, 0, 1, 3, 4}
 TokEndsThorough == {-1, 0, 1, 2, 4, 5}
 TokSegs3 == {<<0, 1>>, <<0, 3>>, <<1, 1>>, <<1, 3>>, <<3, 3>>, <<-1, -1>>}   \* lists of up to 3 tokens
+LongLen == 19
+LongRef == [i \in 1..LongLen |->
+              IF i = 7 THEN <<10 + i, -1, -1>>
+              ELSE IF i = LongLen THEN <<10 + i, 6, 8>>
+              ELSE LET st == (i * 3) % 7 IN <<10 + i, st, st + 1 + (i % 2)>>]
 \* utterances of the directory universe: T frames, per-frame labels, tokens <<id, start, end>>
 ThePool == <<
   [T |-> 0, ali |-> <<>>, ref |-> <<>>],
@@ -30,12 +35,23 @@ ThePool == <<
   [T |-> 5, ali |-> <<2, 2, 2, 2, 2>>, ref |-> <<<<11, 0, 5>>>>],
   [T |-> 5, ali |-> <<1, 2, 1, 2, 1>>, ref |-> <<<<11, 3, 5>>, <<12, 0, 2>>, <<13, 1, 4>>>>],
   [T |-> 4, ali |-> <<1, 1, 2, 2>>, ref |-> <<>>],
-  [T |-> 6, ali |-> <<1, 1, 2, 2, 2, 1>>, ref |-> <<<<11, 0, 2>>, <<12, -1, -1>>, <<13, 2, 5>>, <<14, 5, 6>>>>] >>
+  [T |-> 6, ali |-> <<1, 1, 2, 2, 2, 1>>, ref |-> <<<<11, 0, 2>>, <<12, -1, -1>>, <<13, 2, 5>>, <<14, 5, 6>>>>],
+  \* 9: a hierarchical transcript (a word, then its phones; the second word has a single phone): the
+  \*    segments are not monotone in time and one is repeated
+  [T |-> 6, ali |-> <<1, 1, 2, 2, 1, 1>>,
+   ref |-> <<<<20, 0, 4>>, <<11, 0, 2>>, <<12, 2, 4>>, <<21, 4, 6>>, <<13, 4, 6>>>>],
+  \* 10: segments out of order with repetitions
+  [T |-> 5, ali |-> <<1, 2, 2, 1, 1>>,
+   ref |-> <<<<11, 3, 5>>, <<12, 0, 2>>, <<13, 3, 5>>, <<14, 1, 4>>, <<15, 0, 2>>, <<16, 3, 5>>>>],
+  \* 11: a transcript of many tokens (LongLen of them) over 8 frames, one boundary pair missing
+  [T |-> 8, ali |-> <<1, 1, 2, 2, 2, 1, 1, 2>>, ref |-> LongRef] >>
 D(us, a, r) == [utts |-> us, hasAli |-> a, hasRef |-> r]
 DirsQuick == {D({1}, TRUE, TRUE), D({2}, TRUE, TRUE), D({3}, TRUE, TRUE), D({4}, TRUE, TRUE), D({5}, TRUE, TRUE),
               D({6}, TRUE, TRUE), D({7}, TRUE, TRUE), D({2, 3}, TRUE, TRUE), D({4, 6}, FALSE, TRUE),
-              D({3, 5}, TRUE, FALSE), D({6}, FALSE, FALSE)}
+              D({3, 5}, TRUE, FALSE), D({6}, FALSE, FALSE),
+              D({9, 10}, TRUE, TRUE), D({11}, FALSE, TRUE)}
 DirsThorough == DirsQuick \cup {D({8}, TRUE, TRUE), D({1, 4, 8}, TRUE, TRUE), D({5, 6, 7}, TRUE, TRUE),
-                                D({8}, FALSE, TRUE), D({4}, TRUE, FALSE), D({2, 8}, FALSE, FALSE)}
+                                D({8}, FALSE, TRUE), D({4}, TRUE, FALSE), D({2, 8}, FALSE, FALSE),
+                                D({9}, FALSE, TRUE), D({10}, TRUE, TRUE), D({11}, TRUE, TRUE), D({9, 11}, TRUE, TRUE)}
 NoPool == <<>>
 =============================================================================
